@@ -877,3 +877,44 @@ Proof.
   rewrite Est in H. inversion H; subst s'. exists k, d. destruct (C1 ltac:(lia)) as [_ G].
   split; [exact Hk|]. split; [exact Ek|]. split; [lia|]. split; [exact G|]. apply F1. lia.
 Qed.
+
+(* ---------- C10 in web-seed mode, second half: a piece reserved for a web seed but beyond the piece
+   the web seed is working on can be stolen by an idle peer that holds it ---------- *)
+Lemma peer_steal_go_some s pe : forall ds k d i, In (k, d) ds -> remaining d <> 0 -> d_cur d < i < d_end d ->
+  steal_cand s pe i = true -> peer_steal_go s pe ds <> None.
+Proof.
+  induction ds as [|[k0 d0] r IH]; intros k d i Hin Hrem Hr Hc; [destruct Hin|].
+  cbn [peer_steal_go]. destruct Hin as [Hin|Hin].
+  - inversion Hin; subst k0 d0. destruct (remaining d =? 0) eqn:E; [lia|].
+    destruct (find (steal_cand s pe) (rev (zrange (d_cur d + 1) (d_end d)))) as [j|] eqn:Ef; [discriminate|].
+    exfalso. pose proof (find_none _ _ Ef i) as Hn. rewrite Hn in Hc; [discriminate|]. apply in_rev. rewrite rev_involutive. apply in_zrange. lia.
+  - destruct (remaining d0 =? 0); [eapply IH; eauto|].
+    destruct (find (steal_cand s pe) (rev (zrange (d_cur d0 + 1) (d_end d0)))); [discriminate|eapply IH; eauto].
+Qed.
+
+Lemma dl_srcs_has s k d : 0 <= k < zlen (srcs s) -> get_src s k = Some d -> In (k, d) (dl_srcs s).
+Proof.
+  unfold dl_srcs, get_src, zseq, zlen. generalize (srcs s). intros l Hk E.
+  assert (G : forall (l : list (option wdl)) a n, nth n l None = Some d ->
+            In (Z.of_nat (a + n), d) (flat_map (fun kd : Z * option wdl => match snd kd with Some d0 => [(fst kd, d0)] | None => [] end)
+                                               (combine (map Z.of_nat (seq a (length l))) l))).
+  { induction l0 as [|x r IH]; intros a n Hn; [destruct n; discriminate|]. cbn [length seq map combine flat_map]. apply in_or_app. destruct n as [|n].
+    - cbn [nth] in Hn. subst x. left. cbn [snd fst]. left. rewrite Nat.add_0_r. reflexivity.
+    - right. replace (a + S n)%nat with (S a + n)%nat by lia. apply IH. exact Hn. }
+  specialize (G l 0%nat (Z.to_nat k) E). cbn [Nat.add] in G. rewrite Z2Nat.id in G by lia. exact G.
+Qed.
+
+Theorem ws_idle_holder_can_steal s pe i k d : downloading_ws s = true ->
+  let P := get_peer (peers (base s)) pe in let p := get_piece (base s) i in
+  pe_downloading P = false -> pe_choking P = false ->
+  0 <= k < zlen (srcs s) -> get_src s k = Some d -> remaining d <> 0 -> d_cur d < i < d_end d ->
+  p_done p = false -> p_writing p = false -> In pe (p_having p) -> p_req p = [] ->
+  wpick_check s pe None = None.
+Proof.
+  intros Hd P p H1 H2 Hk Ek Hrem Hr Hdone Hwr Hh Hq. unfold wpick_check. rewrite Hd. fold P. rewrite H1, H2.
+  destruct (gap_cands s pe); [|reflexivity].
+  assert (Hc : steal_cand s pe i = true).
+  { unfold steal_cand. fold p. unfold open_. rewrite Hdone, Hwr, Hq. cbn [orb negb andb length Nat.eqb]. rewrite andb_true_r. apply mem_true. exact Hh. }
+  destruct (peer_steal s pe) as [[k' j]|] eqn:Es; [reflexivity|].
+  exfalso. unfold peer_steal in Es. exact (peer_steal_go_some s pe (dl_srcs s) k d i (dl_srcs_has s k d Hk Ek) Hrem Hr Hc Es).
+Qed.
